@@ -212,7 +212,7 @@ theorem fold3_spec (tr : Nat) : ∀ (L : List (Nat × LTree)) (s : TreeStats), s
 /-- **`LLFree::tree_stats` in an invariant state**: never panics, reads only; the fast total is
     the sum of the tree counters (as counted by `Trees::stats`) plus the counters of the present
     local reservations, and the per-class free counts add up to exactly this total. -/
-theorem treeStats_spec {H : Nat → Prop} (ok : CfgOk c) (inv : UpperInv0 c H m) :
+theorem treeStats_spec {H : Nat → Nat} (ok : CfgOk c) (inv : UpperInv0 c H m) :
     Runs m (treeStats c) (fun s m' => m = m' ∧ s.classes.length = 8 ∧ classFree s.classes = s.freeFrames ∧
       ∃ s0, runSolo (Trees.stats c) m = (m, .ok s0) ∧ s.freeFrames = s0.freeFrames + slotSum c m) := by
   have hcls : ∀ t ∈ m.trees.toList, t.cls < 8 ∧ t.free ≤ c.tf := by
